@@ -12,6 +12,10 @@ LA = 'pysph/sph/wc/linalg.py'
 HELPERS = ('identity', 'dot', 'mat_mult', 'mat_vec_mult', 'augmented_matrix')
 
 
+def compact(n):
+    return M.unparse(n).replace(' ', '')
+
+
 def U(n):
     return M.unparse(n)
 
@@ -498,6 +502,52 @@ def rule_hypot(chk):
             chk.undecided('hypot-identity', label, node=fn, file=rel, func='hypot2', detail=str(e))
 
 
+def rule_tred2_scaling(chk):
+    """tred2 squares the entries of the row it reduces; "any magnitude" (entries of order 1e-160 next to entries of order 1) only survives that when the row is first divided by its
+    abs-sum: every accumulation `h += t*t` inside the reduction loop squares a quantity that was divided by the scale computed from the absolute values of the same row"""
+    from verif_static import norm as N
+    rel = 'pysph/base/linalg3.pyx'
+    t = M.cy(rel)
+    fns = [f for f in ast.walk(t) if isinstance(f, ast.FunctionDef) and f.name == 'tred2']
+    if not fns:
+        raise AnalysisError('tred2 vanished from linalg3.pyx')
+    fn = fns[0]
+    M.set_parents(fn)
+    n = 0
+    for a in ast.walk(fn):
+        if not (isinstance(a, ast.AugAssign) and isinstance(a.op, ast.Add) and isinstance(a.value, ast.BinOp) and isinstance(a.value.op, ast.Mult)
+                and compact(a.value.left) == compact(a.value.right) and isinstance(a.value.left, ast.Subscript)):
+            continue
+        sq = a.value.left
+        loop = M.enclosing(a, (ast.For,))
+        if loop is None or compact(sq.slice) != compact(loop.target):
+            continue
+        outer = M.enclosing(loop, (ast.For,))
+        if outer is None:
+            continue
+        # only the reduction loop: the accumulated name is later used to build the Householder vector (sqrt of it)
+        if not any(isinstance(c, ast.Call) and M.call_name(c) == 'sqrt' and compact(a.target) in compact(c) for c in ast.walk(outer)):
+            continue
+        n += 1
+        before = [s_ for s_ in loop.body if s_.lineno < a.lineno]
+        scaled = [s_ for s_ in before if isinstance(s_, ast.AugAssign) and isinstance(s_.op, ast.Div) and compact(s_.target) == compact(sq)] + \
+                 [s_ for s_ in before if isinstance(s_, ast.Assign) and compact(s_.targets[0]) == compact(sq) and isinstance(s_.value, ast.BinOp) and isinstance(s_.value.op, ast.Div)
+                  and compact(s_.value.left) == compact(sq)]
+        ok = False
+        why = 'the squared entry %s is not divided by the row scale first' % compact(sq)
+        if scaled:
+            dv = scaled[0].value if isinstance(scaled[0], ast.AugAssign) else scaled[0].value.right
+            # the scale is the abs-sum of the same row
+            abss = [x for x in ast.walk(outer) if isinstance(x, ast.AugAssign) and isinstance(x.op, ast.Add) and compact(x.target) == compact(dv)
+                    and isinstance(x.value, ast.Call) and M.call_name(x.value) in ('fabs', 'abs') and compact(x.value.args[0]).split('[')[0] == compact(sq).split('[')[0]]
+            ok = bool(abss)
+            why = 'the divisor %s is not the sum of |entries| of the same row' % compact(dv)
+        chk.decide(ok, 'eigen-scaling-wrapper', 'tred2:squares-of-the-scaled-row@%s' % compact(a.target), node=a, file=rel, func='tred2',
+                   detail_bad='`%s`: %s - a row with entries around 1e-160 next to entries of order 1 (any overall scale) underflows in the sum of squares, and the routine then divides by 0' % (U(a), why),
+                   detail_ok='row divided by its abs-sum before squaring')
+    chk.floor('tred2 sums of squares', n, 1)
+
+
 def main(chk):
     chk.explanation = ('Affine access signatures (E7) of the five helpers compared with definitional forms kept in '
                        'fixtures/linalg_ref.py (other counter names and loop orders); structural rules for gj_solve: the arg-max '
@@ -510,6 +560,7 @@ def main(chk):
     rule_eigen_wrapper(chk)
     rule_backsub_pivot(chk)
     rule_hypot(chk)
+    rule_tred2_scaling(chk)
     chk.unit('functions', list(HELPERS) + ['gj_solve'])
     if not any(o.verdict == 'VIOLATED' for o in chk.obs):
         chk.floor('obligations', len(chk.obs), 14)
